@@ -14,7 +14,7 @@ from . import fitsim
 
 PROPERTY = "C05"
 TIERS = {
-    "quick": {"runs": 400, "budget_s": 110, "chunk": 4},
+    "quick": {"runs": 1200, "budget_s": 110, "chunk": 4},
     "thorough": {"runs": 12000, "budget_s": 900, "chunk": 8},
 }
 REQUIRED_PROBES = {
@@ -149,7 +149,13 @@ class C05Monitor(fitsim.Monitor):
                     continue
                 p = wv(self.S_prev[key]).double()
                 exp = (1.0 - e) * p + e * c
-            if got.shape != exp.shape or not torch.allclose(got, exp, rtol=1e-5, atol=1e-7, equal_nan=True):
+            # forward error bound of the float32 blend (the two terms may cancel: e.g. nll_attach +5.67 and -5.68)
+            if phase == "memoryless":
+                bound = 1e-7 + 1e-6 * c.abs()
+            else:
+                bound = 1e-7 + 16 * 1.2e-7 * (((1.0 - e) * p).abs() + (e * c).abs()) + 1e-6 * exp.abs()
+            ok = got.shape == exp.shape and bool((((got - exp).abs() <= bound) | (torch.isnan(got) & torch.isnan(exp)) | (got == exp)).all())
+            if not ok:
                 violation(out, "recursion", _classify(got, c, self.S_prev, key, k, nb, power, phase), f"k={k} n_b={nb} power={power} key={key}: "
                           f"got {got.reshape(-1)[:3].tolist()} expected {exp.reshape(-1)[:3].tolist()} current {c.reshape(-1)[:3].tolist()}")
                 break
